@@ -354,6 +354,7 @@ func runC07() {
 	}
 	badContexts(r)
 	interpgen.BigNumSweep(func(p *interpgen.Program) { emitOrGoOnly(p) })
+	interpgen.ScriptBoundary(func(p *interpgen.Program) { emitOrGoOnly(p) })
 	nShapes := 1200
 	if c.Thorough() {
 		nShapes = 40000
